@@ -43,7 +43,7 @@ def run(ctx):
     if ctx.tier == "quick":
         args = ["-exh", "1", "-n", "80"]
     else:
-        args = ["-exh", "2", "-n", "1500"]
+        args = ["-exh", "2", "-n", "5000", "-par", "8"]
     only = os.environ.get("C05_ONLY")
     if only:
         args += ["-only", only]
